@@ -83,11 +83,16 @@ def applyDelta (m : PMap) (d : Delta) : Except DErr PMap :=
     if d.key = 0 then .error .newNoKey else
     finishEntry m { id := d.id, power := d.dpower, key := d.key }
 
-/-- One diff; `last = none` for its first element (`i > 0 && d.ParticipantID <= lastActorId`). -/
+/-- `i > 0 && d.ParticipantID <= lastActorId` (`last = none` for the first element of a diff). -/
+def outOfOrder : Option Nat → Nat → Bool
+  | some l, id => decide (id ≤ l)
+  | none, _ => false
+
+/-- One diff, from its element after `last`. -/
 def applyDiffFrom (m : PMap) (last : Option Nat) : Diff → Except DErr PMap
   | [] => .ok m
   | d :: ds =>
-    if (match last with | some l => decide (d.id ≤ l) | none => false) then .error .notSorted else
+    if outOfOrder last d.id then .error .notSorted else
     match applyDelta m d with
     | .error e => .error e
     | .ok m' => applyDiffFrom m' (some d.id) ds
